@@ -14,8 +14,11 @@ translator emits, atoms being single tokens, and the resulting tree is compared 
 reference parser's tree of the CEL token sequence (t_grammar.RefParser): same operators, same
 operand order and grouping, calls with the same name and arguments in source order alone and
 in chains, the same field/index paths, casts for the type constructors.  A string literal must
-come out as exactly one SQL string literal with the same content: every character of the
-content that is a quote must be emitted doubled, decided by z3 over the symbolic characters.
+come out as exactly one SQL string literal with the same content: the content is 2 symbolic
+printable-ASCII characters, the string functions the translator applies to it (`replace`,
+`find`, slicing, `push`, `push_str`, `chars`) are executed on them, and for every case of which
+of the characters are quotes (enumerated by the solver) the emitted text is lexed as SQL and
+must read back as that content.
 Constructs without a translation must be an `Unsupported` error; no path may panic."""
 import re
 import z3
@@ -78,7 +81,8 @@ def parts_of(ex, v):
     if tag.startswith("lit:"):
         return [tag[4:]]
     if tag.startswith("strlit:"):
-        return [("strlit", int(tag[7:]))]
+        i = int(tag[7:])
+        return [("ch", i, j) for j in range(len(ex.notes.get("strchars", {}).get(i, [])))]
     return [("opaque", vid, tag)]
 
 
@@ -208,13 +212,111 @@ def m_str_replace(ex, callee, args, ret_ty, frame):
     for p in parts_of(ex, args[0]):
         if isinstance(p, str):
             out.append(p.replace(f, to_p[0]))
-        elif p[0] == "strlit":
-            out.append(("replaced", p, ord(f), to_p[0]))
+        elif p[0] == "ch":
+            out.append(("repl", p, ord(f), to_p[0]))
         elif p[0] == "ident":
             out.append(p if f not in p[1] else ("ident", p[1].replace(f, to_p[0])))
         else:
             raise engine.Unsupported(f"str::replace on {p}")
     return mk_string(ex, out)
+
+
+def char_items(ex, parts):
+    """a part list as single characters: literal text character by character, symbolic content
+    characters as they are; anything else cannot be indexed"""
+    out = []
+    for p in parts:
+        if isinstance(p, str):
+            out += list(p)
+        elif p[0] == "ch":
+            out.append(p)
+        else:
+            raise engine.Unsupported(f"character access into {p}")
+    return out
+
+
+def char_value(ex, it):
+    if isinstance(it, str):
+        return z3.BitVecVal(ord(it), 32)
+    return ex.notes["strchars"][it[1]][it[2]].bv
+
+
+def item_of_char(ex, v):
+    """the part a `char` value stands for: a known character, or one of the symbolic content characters"""
+    c = v.concrete() if isinstance(v, VInt) else None
+    if c is not None:
+        return chr(c)
+    for i, cs in ex.notes.get("strchars", {}).items():
+        for j, x in enumerate(cs):
+            if isinstance(v, VInt) and v.bv.eq(x.bv):
+                return ("ch", i, j)
+    raise engine.Unsupported("a character of unknown origin is written into a string")
+
+
+def pattern_char(ex, v):
+    v = TG.unref_all(ex, v)
+    if isinstance(v, VInt) and v.concrete() is not None:
+        return v.concrete()
+    s_ = getattr(v, "s", None)
+    if isinstance(s_, str) and len(s_) == 1:
+        return ord(s_)
+    raise engine.Unsupported("a search pattern that is not one known character")
+
+
+def m_str_len(ex, callee, args, ret_ty, frame):
+    """len in bytes = number of characters (the symbolic content characters are ASCII by assumption)"""
+    return VInt(z3.BitVecVal(len(char_items(ex, parts_of(ex, args[0]))), 64), False)
+
+
+def m_str_find_char(ex, callee, args, ret_ty, frame):
+    """str::find(char): the index of the first matching character - one path per possible answer"""
+    items = char_items(ex, parts_of(ex, args[0]))
+    pat = pattern_char(ex, args[1])
+    conds, prev = [], []
+    for i, it in enumerate(items):
+        m = char_value(ex, it) == pat
+        conds.append((str(i), z3.And(prev + [m])))
+        prev = prev + [z3.Not(m)]
+    conds.append(("none", z3.And(prev + [z3.BoolVal(True)])))
+    k = ex.branch(conds, "str::find")
+    rt = norm_ty(ret_ty) if ret_ty else "Option<usize>"
+    if k == len(items):
+        return models.mk_option(ex, rt)
+    return models.mk_option(ex, rt, VInt(z3.BitVecVal(k, 64), False))
+
+
+def m_str_slice(ex, callee, args, ret_ty, frame):
+    """&s[a..b] with known bounds"""
+    items = char_items(ex, parts_of(ex, args[0]))
+    r = args[1]
+    kind = re.search(r"Index<(RangeToInclusive|RangeTo|RangeFrom|RangeInclusive|Range)<usize>>", callee).group(1)
+    f = [x.concrete() if isinstance(x, VInt) else None for x in r.fields]
+    if any(x is None for x in f[:2 if kind in ("Range", "RangeInclusive") else 1]):
+        raise engine.Unsupported("a slice with a symbolic bound")
+    lo, hi = {"RangeToInclusive": (0, f[0] + 1), "RangeTo": (0, f[0]), "RangeFrom": (f[0], len(items)), "Range": (f[0], f[1] if len(f) > 1 else None), "RangeInclusive": (f[0], (f[1] + 1) if len(f) > 1 else None)}[kind]
+    if hi is None or lo > hi or hi > len(items):
+        raise engine.PathEnd("panic", "string slice out of range")
+    return VRef(ex.heap(mk_string(ex, items[lo:hi], "str"), "slice"))
+
+
+def m_string_push(ex, callee, args, ret_ty, frame):
+    sv = TG.unref_all(ex, args[0])
+    table = ex.notes.setdefault("strparts", {})
+    table[sv.vid] = parts_of(ex, sv) + [item_of_char(ex, args[1])]
+    return VUnit()
+
+
+def m_string_push_str(ex, callee, args, ret_ty, frame):
+    sv = TG.unref_all(ex, args[0])
+    table = ex.notes.setdefault("strparts", {})
+    table[sv.vid] = parts_of(ex, sv) + parts_of(ex, args[1])
+    return VUnit()
+
+
+def m_str_chars(ex, callee, args, ret_ty, frame):
+    items = char_items(ex, parts_of(ex, args[0]))
+    vals = [VInt(char_value(ex, it), False) if isinstance(it, str) else ex.notes["strchars"][it[1]][it[2]] for it in items]
+    return VIter(VSeq("char", len(vals), vals, ex.new_vid()), 0, None, "owned")
 
 
 def m_string_new(ex, callee, args, ret_ty, frame):
@@ -281,7 +383,10 @@ SQL_CFG["models"] = [
     (r"^Arguments(::<.*>)?::new::<", m_arguments_new),
     (r"^(alloc::fmt::|std::fmt::)?format$", m_format),
     (r"^<str as ToOwned>::to_owned$", m_to_owned), (r"^<str as ToString>::to_string$", m_to_owned), (r"^<String as Clone>::clone$", m_string_clone),
-    (r"^str::(<impl str>::)?replace::<", m_str_replace), (r"::join::<", m_join), (r"^String::as_str$", m_as_str), (r"^String::new$", m_string_new),
+    (r"^str::(<impl str>::)?replace::<", m_str_replace), (r"::join::<", m_join),
+    (r"^(str::(<impl str>::)?|String::)len$", m_str_len), (r"^str::(<impl str>::)?find::<char>$", m_str_find_char),
+    (r"^<(str|String) as Index<Range\w*<usize>>>::index$", m_str_slice), (r"^String::push$", m_string_push), (r"^String::push_str$", m_string_push_str),
+    (r"^String::with_capacity$", m_string_new), (r"^str::(<impl str>::)?chars$", m_str_chars), (r"^<Chars as Iterator>::next$", models.m_iter_next), (r"^String::as_str$", m_as_str), (r"^String::new$", m_string_new),
     (r"^<(String|str|&str) as PartialEq(<(&?str|String)>)?>::eq$", m_str_eq),
 ] + list(TG.GRAMMAR_CFG["models"])
 SQL_CFG["max_call_depth"] = 120
@@ -325,7 +430,7 @@ def sql_lex(parts):
                 toks.append(("ident", p[1]))
             elif p[0] in ("intlit", "int"):
                 toks.append(("num", p[1]))
-            elif p[0] in ("strlit", "replaced"):
+            elif p[0] in ("sym", "ch", "repl"):
                 raise SqlError("the content of a string literal is emitted outside quotes")
             else:
                 raise SqlError(f"unknown text {p}")
@@ -691,6 +796,12 @@ def string_literals(n, out):
 def check_sql(res, V):
     ex = res.ex
     sc = scenario_sql(ex)
+
+    def prefer_quotes():
+        out = []
+        for i, cs in ex.notes.get("strchars", {}).items():
+            out += [c.bv == 39 for c in cs]
+        return out
     if res.outcome == "panic":
         V.check(ex, "translation never panics", False, detail=res.msg, scenario=sc)
         return
@@ -700,12 +811,28 @@ def check_sql(res, V):
     kind, val = res.ret
     names = TG.ident_names(ex)
 
+    chars = ex.notes.get("strchars", {})
+
+    def resolve(A, p):
+        """a content character under the case the solver is asked about: a quote, or some other character"""
+        if isinstance(p, tuple) and p[0] == "ch":
+            return "'" if A.ask(chars[p[1]][p[2]].bv == 39) else ("sym", p[1], p[2])
+        if isinstance(p, tuple) and p[0] == "repl":
+            inner = p[1]
+            hit = A.ask(chars[inner[1]][inner[2]].bv == p[2]) if inner[0] == "ch" else False
+            return p[3] if hit else resolve(A, inner)
+        return p
+
     def ref(A):
         toks = TG.token_facts(ex, A)
-        toks = [(k if k != "StringLit" else "StringLit", p) for k, p in toks]
         want, used = TG.ref_parse(toks, names)
-        return toks, want, used
-    for assumed, (toks, want, used) in run_reference(ex, ref):
+        flat, content = None, {}
+        if kind == "sql" and isinstance(val, VAdt) and isinstance(val.discr, int) and val.discr == 0:
+            flat = [resolve(A, p) for p in parts_of(ex, ex.adt_fields(val, 0)[0])]
+            for i, cs in chars.items():
+                content[i] = merge_text([resolve(A, ("ch", i, j)) for j in range(len(cs))])
+        return toks, want, used, flat, content
+    for assumed, (toks, want, used, flat, content) in run_reference(ex, ref):
         text = " ".join(k if k not in ("Ident", "IntLit", "StringLit") else {"Ident": "id", "IntLit": "N", "StringLit": "S"}[k] + str(i) for i, (k, _) in enumerate(toks))
         if want is None or kind == "syntax-error":
             V.witness("not an expression")
@@ -722,8 +849,8 @@ def check_sql(res, V):
             V.check(ex, "a translatable expression is translated", False, assumed, detail=lambda: f"`{text}`: {kind} {val!r}", scenario=sc)
             continue
         V.witness("sql")
-        parts = parts_of(ex, ex.adt_fields(val, 0)[0])
-        shown = "".join(p if isinstance(p, str) else "<" + ":".join(map(str, p[:2])) + ">" for p in parts)
+        parts = flat
+        shown = "".join(p if isinstance(p, str) else "<" + ":".join(map(str, p[:3])) + ">" for p in parts)
         try:
             got = sql_parse(parts)
         except SqlError as e:
@@ -733,44 +860,45 @@ def check_sql(res, V):
         same_sql(got, exp, diffs)
         V.check(ex, "the SQL text denotes the operator tree of the source (operators, operand order, grouping, calls, paths, casts)", not diffs, assumed,
                 detail=lambda: f"`{text}` -> `{shown}`: {diffs[:3]}", scenario=sc)
-        # string literals: one SQL literal each, same content
-        for lit in string_literals(got, []):
-            check_quoting(ex, V, lit, assumed, text, shown, sc)
-
-
-def check_quoting(ex, V, lit, assumed, text, shown, sc):
-    """every character of the CEL literal's content comes out as itself, a quote as two quotes"""
-    content = lit.content
-    chars = ex.notes.get("strchars", {})
-    for part in content:
-        if isinstance(part, str):
-            V.check(ex, "a string literal keeps its content", False, assumed, detail=lambda: f"`{text}` -> `{shown}`: literal text {part!r} inside the quotes", scenario=sc)
+        # string literals: one SQL literal each, with exactly the content of the CEL literal - for this
+        # case of which content characters are quotes (the solver enumerates the cases)
+        if diffs:
             continue
-        if part[0] == "strlit":
-            cs = chars.get(part[1], [])
-            # raw copy: right exactly when no character is a quote
-            f = z3.And([c.bv != 39 for c in cs] + [z3.BoolVal(True)])
-            V.check(ex, "a quote inside a string literal is doubled, so the literal cannot end its own quoting", f, assumed,
-                    detail=lambda: f"`{text}` -> `{shown}`: the content is copied between the quotes as it is", scenario=sc,
-                    prefer=lambda: [cs[0].bv == 39] + [c.bv == 97 + j for j, c in enumerate(cs[1:])] if cs else [])
-        elif part[0] == "replaced" and part[1][0] == "strlit":
-            cs = chars.get(part[1][1], [])
-            frm, to = part[2], part[3]
-            obl = []
-            for c in cs:
-                hit = z3.BoolVal(False) if frm is None else (c.bv == frm)
-                tl = len(to)
-                e_len = z3.If(hit, tl, 1)
-                r_len = z3.If(c.bv == 39, 2, 1)
-                e0 = z3.If(hit, z3.BitVecVal(ord(to[0]) if tl else 0, 32), c.bv)
-                e1 = z3.If(hit, z3.BitVecVal(ord(to[1]) if tl > 1 else 0, 32), z3.BitVecVal(0, 32))
-                r0 = z3.If(c.bv == 39, z3.BitVecVal(39, 32), c.bv)
-                r1 = z3.If(c.bv == 39, z3.BitVecVal(39, 32), z3.BitVecVal(0, 32))
-                obl.append(z3.And(e_len == r_len, e0 == r0, e1 == r1))
-            V.check(ex, "a quote inside a string literal is doubled, so the literal cannot end its own quoting", z3.And(obl + [z3.BoolVal(True)]), assumed,
-                    detail=lambda: f"`{text}` -> `{shown}`: content with {frm!r} replaced by {to!r}", scenario=sc)
-        else:
-            V.check(ex, "a string literal keeps its content", False, assumed, detail=lambda: f"`{text}` -> `{shown}`: {part} inside the quotes", scenario=sc)
+        want_lits = [content[n.tok] for n in literal_order(exp, [])]
+        got_lits = [merge_text(l.content) for l in string_literals(got, []) if not is_field_name(l)]
+        V.check(ex, "every string literal comes out as one SQL literal with the same content (a quote doubled), so it cannot end its own quoting", got_lits == want_lits, assumed,
+                detail=lambda: f"`{text}` -> `{shown}`: SQL literals {got_lits}, source contents {want_lits}", scenario=sc, prefer=prefer_quotes)
+
+
+def merge_text(items):
+    out = []
+    for it in items:
+        if isinstance(it, str) and out and isinstance(out[-1], str):
+            out[-1] += it
+        elif it != "":
+            out.append(it)
+    return out
+
+
+def literal_order(n, out):
+    """the string literals of the expected tree in source order"""
+    k = n["k"]
+    if k == "str":
+        out.append(n)
+    for key in ("l", "r", "x", "c", "y", "o", "e", "f"):
+        if key in n and isinstance(n[key], dict):
+            literal_order(n[key], out)
+    for key in ("items", "args"):
+        for a in n.get(key, []):
+            literal_order(a, out)
+    for a, b in n.get("inits", []):
+        literal_order(a, out)
+        literal_order(b, out)
+    return out
+
+
+def is_field_name(n):
+    return bool(n.get("field"))
 
 
 def scenario_sql(ex):
@@ -804,6 +932,8 @@ def sql_template(*items):
         for i, it in enumerate(items):
             if it == "$":
                 cs = [ex.fresh("char", f"s{i}c{j}") for j in range(2)]
+                for c in cs:
+                    ex.assume(z3.And(z3.UGE(c.bv, 32), z3.ULT(c.bv, 127)))       # printable ASCII: one byte per character
                 ex.notes.setdefault("strchars", {})[i] = cs
                 tok = VAdt("Token", idx, {idx: [VOpaque("String", ex.new_vid(), f"strlit:{i}")]}, ex.new_vid())
                 toks[i].fields[0] = tok
